@@ -12,7 +12,7 @@ from canopen.sdo.exceptions import SdoAbortedError, SdoCommunicationError, SdoEr
 from simcan import world
 from simcan.bus import Transport
 from simcan.core import MS, SEC, US
-from simcan.util import call, site
+from simcan.util import call, site, need_bytes
 
 ID = "C07"
 LEVEL = "fault_enumeration"
@@ -380,6 +380,7 @@ def _judge_undisturbed(ctx, w, kind, exc, res, data, index, sub, ncommits, label
     if exc is not None:
         ctx.violation("C07/%s/raised/%s@%s/%s" % (label, type(exc).__name__, site(exc), kind), "%s raised %r" % (what, exc))
     if kind.endswith("ul"):
+        res = need_bytes(ctx, "C07", res, what)
         if bytes(res) != data:
             ctx.violation("C07/%s/wrong-data/%s" % (label, kind),
                           "%s returned %d bytes %s.., server holds %d bytes %s.." % (what, len(res), bytes(res)[:12].hex(), len(data), data[:12].hex()))
@@ -509,6 +510,7 @@ def scenario(ctx):
     if exc is None:
         if not indist:
             if kind.endswith("ul"):
+                res = need_bytes(ctx, "C07", res, what)
                 if bytes(res) != data:
                     ctx.violation("C07/success-with-wrong-data/%s" % cause,
                                   "%s returned %d bytes %s.. but the server holds %d bytes %s.." % (what, len(res), bytes(res)[:16].hex(), len(data), data[:16].hex()))
